@@ -395,3 +395,40 @@ T('pkgA_twin_inject_named_accepted', ['C02'],
 B('pkgA_inject_named_accepted_required_only', ['C02'], 'R02.b',
   (S, "    kwargs = dict([(k, v) for k, v in all_kwargs.items() if k in fb.get_arg_names()])\n",
       "    accepted_names = fb.get_arg_names(only_required=True)\n    kwargs = {k: v for k, v in all_kwargs.items() if k in accepted_names}\n"))
+
+# ------------------------------------------------------------------ further spellings of the same constructions
+T('pkgA_twin_phase_lists_by_loop', ALL4,
+  (C, _REQ_SIGS_OLD, "    req_funcs, req_provides = [], []\n    for mw in middlewares:\n        if mw.request:\n"
+                     "            req_funcs.append(mw.request)\n            req_provides.append(mw.provides)\n"),
+  (C, "    req_all_provides = set(itertools.chain.from_iterable(req_provides))\n",
+      "    req_all_provides = set()\n    for provided_names in req_provides:\n        req_all_provides.update(provided_names)\n"))
+B('pkgA_phase_lists_by_loop_wrong_slot_test', ['C03'], 'R03.d',
+  (C, _REQ_SIGS_OLD, "    req_funcs, req_provides = [], []\n    for mw in middlewares:\n        if mw.endpoint:\n"
+                     "            req_funcs.append(mw.request)\n            req_provides.append(mw.provides)\n"))
+T('pkgA_twin_phase_lists_two_comprehensions', ALL4,
+  (C, _EP_SIGS_OLD, "    ep_funcs = [mw.endpoint for mw in middlewares if mw.endpoint]\n"
+                    "    ep_provides = [mw.endpoint_provides for mw in middlewares if mw.endpoint]\n"),
+  (C, "    req_all_provides = set(itertools.chain.from_iterable(req_provides))\n",
+      "    req_all_provides = {name for provided_names in req_provides for name in provided_names}\n"))
+T('pkgA_twin_argspec_index_loop', ['C01'],
+  (S, "    for f, p in zip(func_list, provides):\n", "    for i, f in enumerate(func_list):\n        p = provides[i]\n"))
+B('pkgA_argspec_index_loop_shifted', ['C01'], 'R01.c',
+  (S, "    for f, p in zip(func_list, provides):\n", "    for i, f in enumerate(func_list):\n        p = provides[i - 1]\n"))
+T('pkgA_twin_level_scope_ior_and_ifexp_default', ['C01', 'C02', 'C03'],
+  (S, "    if params_sofar is None:\n        params_sofar = set([inner_name])\n\n    params_sofar.update(params[0])\n",
+      "    params_sofar = {inner_name} if params_sofar is None else params_sofar\n    params_sofar |= set(params[0])\n"))
+T('pkgA_twin_level_fstrings', ['C01', 'C02', 'C03'],
+  (S, _BCS_TAIL_OLD,
+      "    def_str = f'{outer_indent}def {inner_name}({outer_arg_str}):\\n'\n"
+      "    body_str = build_chain_str(funcs[1:], params[1:], inner_name, params_sofar, level + 1)\n"
+      "    htb_str = f'{inner_indent}__traceback_hide__ = True\\n'\n"
+      "    return_str = f'{inner_indent}return funcs[{level}]({inner_args})\\n'\n"
+      "    return def_str + body_str + htb_str + return_str\n"))
+T('pkgA_twin_request_core_percent_dict', ['C02', 'C03'],
+  (C, "def process_request({all_args}):", "def process_request(%(all_args)s):"),
+  (C, "    context = endpoint({endpoint_args})", "    context = endpoint(%(endpoint_args)s)"),
+  (C, "        resp = render({render_args})", "        resp = render(%(render_args)s)"),
+  (C, "    code_str = _REQ_INNER_TMPL.format(all_args=all_args_str,\n"
+      "                                      endpoint_args=ep_args_str,\n"
+      "                                      render_args=rn_args_str)\n",
+      "    code_str = _REQ_INNER_TMPL % {'all_args': all_args_str, 'endpoint_args': ep_args_str, 'render_args': rn_args_str}\n"))
